@@ -7,6 +7,7 @@ import (
 	"reflect"
 	"regexp"
 	"strings"
+	"sync"
 	"unicode/utf16"
 	"unicode/utf8"
 
@@ -422,6 +423,12 @@ func c17RandString(r *Rng) string {
 }
 
 func c17Run(c *C) {
+	if c17FirstUseFailure != nil {
+		d := c17FirstUseFailure
+		c17FirstUseFailure = nil
+		c.Fail("promise-broken", d)
+		return
+	}
 	rb, sb, _ := c17Plan(c.Tier)
 	runner, err := newC17Runner()
 	if err != nil {
@@ -482,15 +489,61 @@ func c17Run(c *C) {
 	}
 }
 
+// c17FirstUse is the very first thing a worker process does with the filters: every filter is used for the first
+// time in this process by 32 goroutines at once (tables or caches built lazily on first use must be complete before
+// anyone reads them). The results are compared with sequential ones computed afterwards.
+var c17FirstUseFailure D
+
+func c17FirstUse() {
+	const sample = "abcXYZ019 </script>'\"&\\/-_.~\u00e9\n"
+	for _, f := range c17Filters {
+		var param *pongo2.Value
+		if f == "removetags" {
+			param = pongo2.AsValue("b")
+		}
+		const n = 32
+		outs := make([]string, n)
+		start := make(chan struct{})
+		var wg sync.WaitGroup
+		for g := 0; g < n; g++ {
+			wg.Add(1)
+			go func(g int) {
+				defer wg.Done()
+				defer func() {
+					if r := recover(); r != nil {
+						outs[g] = fmt.Sprint("panic: ", r)
+					}
+				}()
+				<-start
+				v, err := pongo2.ApplyFilter(f, pongo2.AsValue(sample), param)
+				if err != nil {
+					outs[g] = "error: " + err.Error()
+					return
+				}
+				outs[g] = v.String()
+			}(g)
+		}
+		close(start)
+		wg.Wait()
+		want, _ := pongo2.ApplyFilter(f, pongo2.AsValue(sample), param)
+		for g := 0; g < n; g++ {
+			if outs[g] != want.String() && c17FirstUseFailure == nil {
+				c17FirstUseFailure = D{"filter": f, "input": q(sample), "output_of_one_of_32_concurrent_first_uses": q(outs[g]), "sequential_output_afterwards": q(want.String()), "why": "the first use of the filter in this process happened on 32 goroutines at once"}
+			}
+		}
+	}
+}
+
 func init() {
 	register(&Prop{
-		ID: "C17",
+		ID:   "C17",
+		Init: c17FirstUse,
 		Cases: func(tier string) int {
 			a, b, r := c17Plan(tier)
 			return a + b + r
 		},
 		Run: c17Run,
-		Rule: "every input is passed to each of escape, e, escapejs, urlencode, iriencode, addslashes, striptags, removetags:\"a,b\", safe through ApplyFilter and through {{ v|f }} under autoescape off; " +
+		Rule: "every input is passed to each of escape, e, escapejs, urlencode, iriencode, addslashes, striptags, removetags:\"a,b\", safe through ApplyFilter and through {{ v|f }} under autoescape off; every worker process first uses each filter from 32 goroutines at once (lazily built tables); " +
 			"inputs: exhaustively every BMP code point as a one-rune string (surrogates as invalid UTF-8), exhaustively all strings of up to 3 blocks over 17 special blocks, and random strings of specials/multi-byte/astral runes/invalid UTF-8/entities/backslash sequences; " +
 			"the oracle decodes the output independently (HTML unescape of five entities, \\uXXXX decoding with surrogate pairs, url.QueryUnescape, reference functions for addslashes/striptags/removetags). distinct_nontrivial = distinct input strings.",
 		MinNontriv:  5000,
